@@ -154,16 +154,15 @@ theorem finish_out (e : Env) (s : St) (c : Call) (t1 : Stored) (r : Bytes) (n : 
     cases calcStored e c.fn t1 t2 <;> rfl
 
 /-- the value a call returns depends on the state only through its own entry -/
-theorem step_out (e : Env) (hd : e.cfg.dictsDistinct = true) (s : St) (c : Call) (h : List Call)
-    (hs : s c.fam c.tid = prev (sample e) c.fam c.tid h) :
-    (step e s c).2 = expected (sample e) (calcStored e) h c := by
+theorem step_out_ref (e : Env) (hd : e.cfg.dictsDistinct = true) (s : St) (c : Call) :
+    (step e s c).2 = expectedRef (sample e) (calcStored e) (s c.fam c.tid) c := by
   rw [step_unfold]
-  unfold expected refOf
-  simp only [slot_id e.cfg hd, hs]
+  unfold expectedRef refOf
+  simp only [slot_id e.cfg hd]
   by_cases hn : c.negative = true
   · simp [hn]
   · simp only [hn, Bool.false_eq_true, if_false]
-    cases (if c.blocking = true then none else usable (prev (sample e) c.fam c.tid h)) with
+    cases (if c.blocking = true then none else usable (s c.fam c.tid)) with
     | some t1 =>
       simp only
       cases c.reads with
@@ -181,6 +180,55 @@ theorem step_out (e : Env) (hd : e.cfg.dictsDistinct = true) (s : St) (c : Call)
           cases rest with
           | nil => rfl
           | cons r1 rest' => rw [finish_out]; rfl
+
+theorem step_out (e : Env) (hd : e.cfg.dictsDistinct = true) (s : St) (c : Call) (h : List Call)
+    (hs : s c.fam c.tid = prev (sample e) c.fam c.tid h) :
+    (step e s c).2 = expected (sample e) (calcStored e) h c := by
+  rw [step_out_ref e hd, hs]
+  rfl
+
+/-- the state the module-level code leaves behind is the specification's "sample taken at import" -/
+theorem importState_entry (e : Env) (tid0 : Tid) (r0 r1 : Bytes) (fam : Fam) (tid : Tid) :
+    importState e tid0 r0 r1 fam tid = importSample (sample e) tid0 r0 r1 fam tid := by
+  unfold importState importSample
+  cases hp : fam.percpu with
+  | true =>
+    simp only [if_true]
+    cases sample e true r1 with
+    | error x => by_cases ht : tid = tid0 <;> simp [Except.toOption, ht]
+    | ok v => by_cases ht : tid = tid0 <;> simp [Except.toOption, ht]
+  | false =>
+    simp only [Bool.false_eq_true, if_false]
+    cases sample e false r0 with
+    | error x => by_cases ht : tid = tid0 <;> simp [Except.toOption, ht]
+    | ok v => by_cases ht : tid = tid0 <;> simp [Except.toOption, ht]
+
+/-! ### threads and their identifiers -/
+
+theorem prevStep_reTid (rd : Bool → Bytes → PRes Stored) (ident : Tid → Tid) (fam : Fam) (tid : Tid)
+    (p : Option Stored) (c : Call) (hinj : ident c.tid = ident tid → c.tid = tid) :
+    prevStep rd fam (ident tid) p (reTid ident c) = prevStep rd fam tid p c := by
+  unfold prevStep
+  have hk : ((reTid ident c).fam = fam ∧ (reTid ident c).tid = ident tid) ↔ (c.fam = fam ∧ c.tid = tid) := by
+    simp only [reTid, Call.fam]
+    constructor
+    · intro h; exact ⟨h.1, hinj h.2⟩
+    · intro h; exact ⟨h.1, by rw [h.2]⟩
+  have ht : ∀ r, taken rd (reTid ident c) r = taken rd c r := by intro r; rfl
+  by_cases h : c.fam = fam ∧ c.tid = tid
+  · rw [if_pos (hk.mpr h), if_pos h, ht]
+  · rw [if_neg (fun x => h (hk.mp x)), if_neg h]
+
+theorem prev_reTid (rd : Bool → Bytes → PRes Stored) (ident : Tid → Tid) (fam : Fam) (tid : Tid)
+    (h : List Call) (hinj : ∀ a ∈ h, ident a.tid = ident tid → a.tid = tid) :
+    ∀ p, (h.map (reTid ident)).foldl (prevStep rd fam (ident tid)) p = h.foldl (prevStep rd fam tid) p := by
+  induction h with
+  | nil => intro p; rfl
+  | cons a as ih =>
+    intro p
+    simp only [List.map_cons, List.foldl_cons]
+    rw [prevStep_reTid rd ident fam tid p a (hinj a (by simp))]
+    exact ih (fun x hx => hinj x (by simp [hx])) _
 
 /-! ### other threads -/
 
@@ -382,7 +430,7 @@ theorem pstep_other (c : Cfg) (tck : Nat) (s : PSt) (p : PCall) (o : Nat) (h : p
 theorem pstep_same (c : Cfg) (tck : Nat) (s : PSt) (p : PCall) :
     (pstep c tck s p).1 p.obj =
       match ptaken p with
-      | some (w, u, st) => some ⟨w * numCpus p.ncpuRaw, procSecs tck u, procSecs tck st⟩
+      | some (w, u, st) => some ⟨procStamp c (numCpus p.ncpuRaw) w, procSecs tck u, procSecs tck st⟩
       | none => s p.obj := by
   unfold pstep ptaken
   by_cases hn : p.negative = true
